@@ -43,10 +43,12 @@ CLAIMED["C06"] = {
             "queued popper entries balance; which arms are poppers is derived from the code, not listed. Part B "
             "executes the real Break and Continue arms (eval_break / eval_continue) from every I-state with 0..3 "
             "(thorough 4) pending entries of any popper / non-popper class above the innermost while/for entry and "
-            "checks I afterwards and that the loop's continuation returns the block count to its pre-loop value.",
+            "checks I afterwards and that the loop's continuation returns the block count to its pre-loop value. Part C "
+            "executes the real Return arm from every I-state of the top-level frame (the one frame that outlives a "
+            "return) and checks I afterwards (nothing pending, only the top-level block live).",
     "note": "Trusted: rsx semantics, std models, z3 (path feasibility; shapes are forked). The last step from I to "
             "'variable not visible' is a paper argument (let writes to the innermost block, lookups scan live blocks). "
-            "One frame (return drops the frame); error outcomes are excluded (C07/C09).",
+            "One frame (in a called function return drops the frame with all its blocks: the real frame exit of eval, exercised by C08/C09B); error outcomes are excluded (C07/C09).",
     "design_ref": "DESIGN.md section 6, C06",
 }
 
